@@ -17,12 +17,11 @@ Print Assumptions C12_registry_invariant.
    -> instance, or rejects it -> its own error), SuitableVariantNotFound iff there is none, never anything else *)
 Theorem C12_registry : forall acc sites pre i s inp t present,
   nth_error sites i = Some s -> s_field s = true -> site_ok s (length (defs pre)) = true ->
-  crash_on_refill s = false ->                       (* not the region of finding optional-union-nonetype-variant *)
   assoc (s_fid s) inp = Some (Hashable t) ->          (* the site's key is present in the input and its value is t *)
   tag_unique (defs pre) s t -> plain_carriers sites (defs pre) s t ->
   exists o, snd (step acc sites (final acc sites pre) (Decode i inp present)) = Some o
             /\ field_spec acc (defs pre) s t present o.
-Proof. exact decode_field_correct. Qed.
+Proof. intros acc sites pre i s inp t present Hs Hf OK. exact (decode_field_correct acc sites pre i s inp t present Hs Hf OK eq_refl). Qed.
 Print Assumptions C12_registry.
 
 (* the selected class's own KeyError surfaces as such (fix C12-variant-keyerror-misreported: only the registry lookup is
@@ -39,16 +38,19 @@ Proof. vm_compute. split; reflexivity. Qed.
    reference semantics [ref_decode] says for the classes defined so far - provided only that every tag the input carries
    is carried by at most one eligible class at the dispatcher that reads it (uniq_all; computable: uniq_allb) *)
 Theorem C12_dispatch_ref : forall acc sites pre i inp present,
-  uniq_all sites (defs pre) inp -> no_crash sites ->
+  uniq_all sites (defs pre) inp ->
   snd (step acc sites (final acc sites pre) (Decode i inp present)) = Some (ref_decode acc sites (defs pre) i inp present).
-Proof. exact decode_ref. Qed.
+Proof. intros acc sites pre i inp present UA. exact (decode_ref acc sites pre i inp present UA (no_crash_always sites)). Qed.
 Print Assumptions C12_dispatch_ref.
 
 Theorem C12_history_independent_full : forall acc sites pre1 pre2 i inp present,
-  defs pre1 = defs pre2 -> uniq_all sites (defs pre1) inp -> no_crash sites ->
+  defs pre1 = defs pre2 -> uniq_all sites (defs pre1) inp ->
   snd (step acc sites (final acc sites pre1) (Decode i inp present))
   = snd (step acc sites (final acc sites pre2) (Decode i inp present)).
-Proof. exact history_independent_ref. Qed.
+Proof.
+  intros acc sites pre1 pre2 i inp present E UA.
+  exact (history_independent_ref acc sites pre1 pre2 i inp present E UA (no_crash_always sites)).
+Qed.
 Print Assumptions C12_history_independent_full.
 
 Theorem C12_uniq_all_decidable : forall sites ops inp, uniq_allb sites (defs ops) inp = true -> uniq_all sites (defs ops) inp.
@@ -106,11 +108,14 @@ Print Assumptions C12_present_keys_not_missing.
 Theorem C12_history_independent : forall acc sites1 sites2 pre1 pre2 i1 i2 s inp1 inp2 t present,
   nth_error sites1 i1 = Some s -> nth_error sites2 i2 = Some s -> s_field s = true ->
   assoc (s_fid s) inp1 = Some (Hashable t) -> assoc (s_fid s) inp2 = Some (Hashable t) ->
-  defs pre1 = defs pre2 -> site_ok s (length (defs pre1)) = true -> crash_on_refill s = false -> tag_unique (defs pre1) s t ->
+  defs pre1 = defs pre2 -> site_ok s (length (defs pre1)) = true -> tag_unique (defs pre1) s t ->
   plain_carriers sites1 (defs pre1) s t -> plain_carriers sites2 (defs pre1) s t ->
   snd (step acc sites1 (final acc sites1 pre1) (Decode i1 inp1 present))
   = snd (step acc sites2 (final acc sites2 pre2) (Decode i2 inp2 present)).
-Proof. exact history_independent. Qed.
+Proof.
+  intros acc sites1 sites2 pre1 pre2 i1 i2 s inp1 inp2 t present H1 H2 Hf T1 T2 E OK.
+  exact (history_independent acc sites1 sites2 pre1 pre2 i1 i2 s inp1 inp2 t present H1 H2 Hf T1 T2 E OK eq_refl).
+Qed.
 Print Assumptions C12_history_independent.
 
 (* include_subtypes / include_supertypes bound exactly the classes that are tried: the walk
@@ -224,7 +229,7 @@ Proof.
   split; [reflexivity|]. split.
   - apply (proj1 (C12_tag_unique_decidable h_late s_demo 3 eq_refl)). reflexivity.
   - split; [reflexivity|]. split; [|reflexivity].
-    destruct (C12_registry acc_req [s_demo] h_late 0 s_demo [(0, Hashable 3)] 3 [] eq_refl eq_refl eq_refl eq_refl eq_refl
+    destruct (C12_registry acc_req [s_demo] h_late 0 s_demo [(0, Hashable 3)] 3 [] eq_refl eq_refl eq_refl eq_refl
                 (proj1 (C12_tag_unique_decidable h_late s_demo 3 eq_refl) eq_refl)
                 (fun c _ => eq_refl)) as [o [E S]].
     vm_compute in E. injection E as <-. apply (proj1 (proj1 S 3) eq_refl).
